@@ -425,6 +425,7 @@ func TestCurvesGadgets(t *testing.T) {
 		c := genGadgetCase(rt, g, field, q)
 		c.Mode = genMode(rt, 50)
 		maybeStrat(rt, &c, q, 40)
+		rec.Begin("gadget", c)
 		rec.Report(rt, "gadget", c, run(c))
 	})
 }
@@ -476,6 +477,7 @@ func TestCurvesUintsArith(t *testing.T) {
 		c := genUintsCase(rt, field, []int{uArith, uAdd, uAdd | uPack}, []int{32, 64})
 		c.Mode = genMode(rt, 40)
 		maybeStrat(rt, &c, fieldByName(field).Q, 60)
+		rec.Begin("gadget", c)
 		rec.Report(rt, "gadget", c, run(c))
 	})
 }
@@ -500,6 +502,7 @@ func TestCurvesUintsLogic(t *testing.T) {
 			}
 		}
 		maybeStrat(rt, &c, fieldByName("bn254").Q, 50)
+		rec.Begin("gadget", c)
 		rec.Report(rt, "gadget", c, run(c))
 	})
 }
